@@ -20,6 +20,8 @@ semantics (same operations, same order, same exceptions); nothing is executed.  
                                                                    and the right-hand sides are calls-free or there is no
                                                                    dependency between them: evaluation order is kept)
 
+  CONST    a private module-level name bound once to a literal constant is replaced by the literal inside functions (see constprop)
+
 `LOKYSA_CANON=-LOOP,-SWAP` disables passes (debugging).  The count of rewrites per pass is kept in STATS.
 """
 import ast
@@ -331,5 +333,63 @@ class _Replace(ast.NodeTransformer):
         return super().visit(node)
 
 
+def _const_literal(v):
+    if isinstance(v, ast.Constant) and isinstance(v.value, (str, int, float, bytes, bool, type(None))):
+        return True
+    return isinstance(v, ast.Tuple) and all(_const_literal(x) for x in v.elts)
+
+
+def constprop(tree):
+    """CONST: a private module-level name (`_X`) bound exactly once, at module level, to a literal constant (or a tuple of them), never
+    rebound or deleted anywhere in the module and never named in a `global` statement, is replaced by the literal where it is read
+    inside functions: `_FNAME = "cpu.max"` + `open(_FNAME)` is `open("cpu.max")`.  (Moving a literal to a module-level constant and
+    back is a common clean-up.  Names that other code rebinds -- depth counters, flags -- are excluded by the single-binding test.)"""
+    if not _on("CONST"):
+        return tree
+    bound = {}
+    for s in tree.body:
+        if isinstance(s, ast.Assign) and len(s.targets) == 1 and isinstance(s.targets[0], ast.Name):
+            bound.setdefault(s.targets[0].id, []).append(s.value)
+    cands = {n: v[0] for n, v in bound.items() if len(v) == 1 and n.startswith("_") and not n.startswith("__") and _const_literal(v[0])}
+    if not cands:
+        return tree
+    # any other binding of the name anywhere (store / del / global / import / def / class / loop target...) disqualifies it
+    for n in ast.walk(tree):
+        if isinstance(n, ast.Name) and isinstance(n.ctx, (ast.Store, ast.Del)) and n.id in cands:
+            if not any(isinstance(s, ast.Assign) and s.targets[0] is n for s in tree.body):
+                cands.pop(n.id, None)
+        elif isinstance(n, (ast.Global, ast.Nonlocal)):
+            for nm in n.names:
+                cands.pop(nm, None)
+        elif isinstance(n, (ast.FunctionDef, ast.AsyncFunctionDef, ast.ClassDef)) and n.name in cands:
+            cands.pop(n.name, None)
+        elif isinstance(n, ast.arg) and n.arg in cands:
+            cands.pop(n.arg, None)
+        elif isinstance(n, (ast.Import, ast.ImportFrom)):
+            for al in n.names:
+                cands.pop((al.asname or al.name).split(".")[0], None)
+    if not cands:
+        return tree
+
+    class _Sub(ast.NodeTransformer):
+        def __init__(self):
+            self.depth = 0
+
+        def visit_FunctionDef(self, node):
+            self.depth += 1
+            self.generic_visit(node)
+            self.depth -= 1
+            return node
+        visit_AsyncFunctionDef = visit_FunctionDef
+        visit_Lambda = visit_FunctionDef
+
+        def visit_Name(self, node):
+            if self.depth and isinstance(node.ctx, ast.Load) and node.id in cands:
+                _hit("CONST")
+                return ast.copy_location(copy.deepcopy(cands[node.id]), node)
+            return node
+    return _Sub().visit(tree)
+
+
 def canonicalise(tree):
-    return ast.fix_missing_locations(Canon().visit(tree))
+    return ast.fix_missing_locations(Canon().visit(constprop(tree)))
